@@ -17,7 +17,7 @@ UNIT = dict(
             "lance_core::Error -> unit-like error"],
     bounds={"value types": "Int32, UInt64, Float32, Float64 (all bit patterns incl. NaN, +-0, +-inf)", "IsIn": "<=2 values", "statistics": "arbitrary min/max/null_count/nan_count satisfying the builder's contract w.r.t. ONE arbitrary row value v of the zone",
             "contract assumed": "v NULL => null_count>0; v NaN => nan_count>0; v non-null => min <= v <= max in ScalarValue (total) order, min/max non-null of v's type (what update_stats computes with DataFusion's Min/MaxAccumulator)"},
-    outside=["that the builder's accumulators produce statistics satisfying the contract (Arrow/DataFusion min/max kernels)", "Float16 values, strings, temporal types", "legacy v1 page-statistics pruning (pushdown_scan.rs, DataFusion PruningPredicate)", "NaNs other than the canonical quiet NaN (sign bit or payload set) in rows, statistics or query literals: ScalarValue's total order tells them apart (see DESIGN.md)"],
+    outside=["that the builder's accumulators produce statistics satisfying the contract (Arrow/DataFusion min/max kernels)", "Float16 values, strings, temporal types", "legacy v1 page-statistics pruning (pushdown_scan.rs, DataFusion PruningPredicate)", "NaNs with a non-default payload anywhere, and negative NaN literals as *range bounds*: ScalarValue's total order tells them apart (see DESIGN.md); rows, statistics and Equals/IsIn literals may be either default NaN (f32::NAN or its negation, the NaN x86 computes)"],
 )
 
 ENV = open(os.path.join(os.path.dirname(__file__), "env.rs")).read()
